@@ -148,6 +148,9 @@ def gen_config(rng, sp, profile):
         nskip = rng.choice([0, 0, 1, 1, 2, 4])
         pos = [rand_filter(rng, paths, exact) for _ in range(npos)]
         skip = [rand_filter(rng, paths, exact) for _ in range(nskip)]
+        if rng.random() < 0.08:
+            # an empty filter text (`cargo bench -- ""`): as a regex it is found in every path, as an exact name it equals none
+            (pos if rng.random() < 0.7 else skip).insert(0, "")
         bskip = []
         if rng.random() < 0.25:
             for _ in range(rng.randrange(1, 3)):
